@@ -1,0 +1,6 @@
+//go:build !verif
+
+package fp
+
+// verifSpawn is a no-op unless the package is built with the verif tag.
+func verifSpawn(r Runnable) bool { return false }
